@@ -18,6 +18,9 @@
 (*          per-instance copy of Globals is shallow)                                             *)
 (*   pe     the package-level variable vm.PrintExpr that REPL.Run rebinds for the duration of a   *)
 (*          line and restores afterwards                                                         *)
+(*   depth  the number of Python frames that are active in the process: an implementation that    *)
+(*          counts frames against its recursion limit in one place lets the call depth of one     *)
+(*          context decide whether another context's calls succeed                                *)
 (* shared[c] is context c's view of that state.  Shared = FALSE is the ideal (every context has   *)
 (* its own copy: what C08 states); Shared = TRUE is implementation-shaped (a write by one        *)
 (* context updates every view).                                                                  *)
@@ -62,7 +65,8 @@ OpList == << Op("SetGlobal", ""), Op("GetGlobal", ""),
              Op("SetTypeAttr", "stdlib"), Op("GetTypeAttr", "stdlib"),
              Op("SetTypeAttr", "embedder"), Op("GetTypeAttr", "embedder"),
              Op("MutateImplObject", ""), Op("ReadImplObject", ""),
-             Op("ReplLine", "") >>
+             Op("ReplLine", ""),
+             Op("HoldDeep", ""), Op("Recurse", "") >>
 Ops == {OpList[i] : i \in 1..Len(OpList)}
 
 \* the piece of interpreter state an operation touches, and the operation that writes it: the
@@ -76,6 +80,7 @@ Component(o) ==
     [] o \in {"SetTypeAttr", "GetTypeAttr"}             -> [name |-> "builtin type dictionary", writer |-> "SetTypeAttr"]
     [] o \in {"MutateImplObject", "ReadImplObject"}     -> [name |-> "object in ModuleImpl.Globals (os.environ)", writer |-> "MutateImplObject"]
     [] o = "ReplLine"                                   -> [name |-> "vm.PrintExpr", writer |-> "ReplLine"]
+    [] o \in {"HoldDeep", "Recurse"}                    -> [name |-> "call depth budget", writer |-> "HoldDeep"]
 
 \* How the contexts of a case are created is part of the case (C08 quantifies over contexts however they
 \* were configured): "explicit" = ContextOpts with SysArgs and SysPaths given, "zero" = the zero value
@@ -97,11 +102,19 @@ Some(v) == [has |-> TRUE, v |-> v]
 \* the value written by the i-th operation of context c
 Val(c, i) == c \o ":" \o ToString(i)
 
-\* A script is executed step by step; every operation is one step except ReplLine, which is two:
-\* REPL.Run rebinds vm.PrintExpr (ph 1), then compiles and runs the line and restores (ph 2).
+\* A script is executed step by step; every operation is one step except ReplLine and HoldDeep, which are two:
+\* REPL.Run rebinds vm.PrintExpr (ph 1), then compiles and runs the line and restores (ph 2);
+\* HoldDeep calls a function that recurses HoldDepth frames deep and stays there (ph 1) until it is let go, unwinds
+\* and prints the depth it reached (ph 2).  Recurse recurses RecDepth frames deep and prints that depth: each fits the
+\* recursion limit on its own, together they do not (HoldDepth + RecDepth > RecLimit), so Recurse tells whether
+\* the frames of ANOTHER context count against this context's limit.
+TwoPhase == {"ReplLine", "HoldDeep"}
+HoldDepth == 900
+RecDepth == 300
+RecLimit == 1000
 \* A step is [o |-> operation, i |-> its position in the script, ph |-> 0 (whole operation) | 1 | 2].
 StepsOf(s) ==
-  FoldLeft(LAMBDA acc, i : acc \o (IF OpList[s[i]].op = "ReplLine"
+  FoldLeft(LAMBDA acc, i : acc \o (IF OpList[s[i]].op \in TwoPhase
                                    THEN << [o |-> OpList[s[i]], i |-> i, ph |-> 1], [o |-> OpList[s[i]], i |-> i, ph |-> 2] >>
                                    ELSE << [o |-> OpList[s[i]], i |-> i, ph |-> 0] >>),
            <<>>, [i \in 1..Len(s) |-> i])
@@ -113,7 +126,7 @@ Local0 == [main     |-> [g |-> None],
            builtins |-> None,
            sysout   |-> FALSE,
            replst   |-> [mid |-> FALSE, saved |-> "default"]]
-View0  == [tattr |-> [k \in TypeKinds |-> None], env |-> None, pe |-> "default"]
+View0  == [tattr |-> [k \in TypeKinds |-> None], env |-> None, pe |-> "default", depth |-> 0]
 
 \* stdout lines are joined with "/"; an exception is the last segment "exc:<Class>"
 Cat(a, b) == IF a = "" THEN b ELSE IF b = "" THEN a ELSE a \o "/" \o b
@@ -155,6 +168,13 @@ Eff(c, st, L, S, pol) ==
        [] o = "GetTypeAttr" -> R(L, S, IF S.tattr[a].has THEN S.tattr[a].v ELSE "exc:AttributeError")
        [] o = "MutateImplObject" -> R(L, [S EXCEPT !.env = Some(v)], "")
        [] o = "ReadImplObject"   -> R(L, S, IF S.env.has THEN S.env.v ELSE "exc:KeyError")
+       [] o = "HoldDeep" /\ st.ph = 1 ->
+            [L |-> [L EXCEPT !.replst.mid = TRUE], S |-> [S EXCEPT !.depth = @ + HoldDepth], out |-> <<>>,
+             echoTo |-> "", echo |-> OpEntry(0, "")]
+       [] o = "HoldDeep" /\ st.ph = 2 ->
+            [L |-> [L EXCEPT !.replst.mid = FALSE], S |-> [S EXCEPT !.depth = @ - HoldDepth], out |-> <<OpEntry(i, ToString(HoldDepth))>>,
+             echoTo |-> "", echo |-> OpEntry(0, "")]
+       [] o = "Recurse" -> R(L, S, IF S.depth + RecDepth > RecLimit THEN "exc:RuntimeError" ELSE ToString(RecDepth))
        [] o = "ReplLine" /\ st.ph = 1 ->
             [L |-> [L EXCEPT !.replst = [mid |-> TRUE, saved |-> S.pe]], S |-> [S EXCEPT !.pe = c], out |-> <<>>,
              echoTo |-> "", echo |-> OpEntry(0, "")]
@@ -176,7 +196,7 @@ Pack(c) == [main |-> main[c], store |-> store[c], syspath |-> syspath[c], sysarg
 
 \* the step context c takes next
 CurStep(c) == LET o == OpList[script[c][ip[c]]] IN
-              [o |-> o, i |-> ip[c], ph |-> IF o.op # "ReplLine" THEN 0 ELSE IF replst[c].mid THEN 2 ELSE 1]
+              [o |-> o, i |-> ip[c], ph |-> IF o.op \notin TwoPhase THEN 0 ELSE IF replst[c].mid THEN 2 ELSE 1]
 
 \* the kinds of type that assignment a assigns on; only for these is the reaction a choice
 SetKinds(a) == { k \in TypeKinds : \E c \in Ctx : \E i \in 1..Len(a[c]) : OpList[a[c][i]] = Op("SetTypeAttr", k) }
@@ -261,7 +281,7 @@ LeakWitness ==
      PrintT(ToJson([leak |-> Component(o.op), at |-> o.op]))
 
 \* printed once: how operations map to state components (used by the harness for finding keys)
-Meta == [typekinds |-> TypeKinds, meta |-> [o \in {OpList[i].op : i \in 1..Len(OpList)} |-> Component(o)],
+Meta == [holddepth |-> HoldDepth, recdepth |-> RecDepth, typekinds |-> TypeKinds, meta |-> [o \in {OpList[i].op : i \in 1..Len(OpList)} |-> Component(o)],
          oplist |-> OpList, srcmods |-> SrcMods]
 ASSUME PrintT(ToJson(Meta))
 =============================================================================
